@@ -3,9 +3,9 @@
 package harness
 
 import (
-	"strings"
 	"context"
 	"fmt"
+	"strings"
 	"sync"
 
 	"github.com/platinummonkey/go-concurrency-limits/core"
@@ -52,8 +52,8 @@ type partSUT struct {
 	pred   *strategy.PredicatePartitionStrategy
 	lobj   map[string]*strategy.LookupPartition
 	pobj   map[string]*strategy.PredicatePartition
-	ids    []string            // sorted object ids
-	order  []string            // registered objects (registration order), from return values
+	ids    []string                        // sorted object ids
+	order  []string                        // registered objects (registration order), from return values
 	tokens map[string][]core.StrategyToken // by bin
 
 	// what the partitions' own predicates saw while a removal evaluated them: the in-flight count of each partition at
@@ -67,7 +67,9 @@ type partSUT struct {
 
 type removalMark struct{}
 
-func removalCtx(ctx context.Context) context.Context { return context.WithValue(ctx, removalMark{}, true) }
+func removalCtx(ctx context.Context) context.Context {
+	return context.WithValue(ctx, removalMark{}, true)
+}
 
 // watch wraps the predicate of object id: during a removal it notes the partition's in-flight count when it matches.
 func (s *partSUT) watch(id string, inner func(context.Context) bool) func(context.Context) bool {
